@@ -31,17 +31,24 @@ func (t *terminal) ptyReadLoop() {
 }
 
 func (t *terminal) ptyReadOne(gr *GraphemeReader) error {
-	bw, useBytes := t.screen().(interface {
+	type byteWriter interface {
 		writeString(string, int, bool, TextReadMode)
-	})
-	if useBytes {
-		maxWidth := 0
-		if t.screen().AutoWrap() {
+	}
+	var bw byteWriter
+	var useBytes bool
+	maxWidth := 0
+	// Resize and the other API calls change the screen from other goroutines:
+	// look at it under the lock, and release the lock again before reading input.
+	t.WithLock(func() {
+		bw, useBytes = t.screen().(byteWriter)
+		if useBytes && t.screen().AutoWrap() {
 			maxWidth = t.screen().Size().X - t.screen().CursorPos().X
 			if maxWidth < 1 {
 				maxWidth = 1
 			}
 		}
+	})
+	if useBytes {
 		data, width, merge, err := gr.ReadPrintableBytes(maxWidth)
 		if err != nil {
 			if err != io.EOF {
